@@ -73,9 +73,20 @@ What is PROVED here:
   * `manifest_sound_valid_accepted`  the same from acceptance of the policies by `checkPolicy .strict` in ALL environments
                                  (C03's policy-level premise): the request's environment is one of them.
 
-What REMAINS: enlarging the fragment (record / set literals, `==` / `contains` on records; extension calls are covered by
-`manifest_sound_valid` / `eval_sim` but not by the older `InFrag`-based theorems); the "keeps
-more entities" half of `slice_monotone`; `typedAst` is a specification-level definition (Lemmas/ManifestValid.lean, written
+  * `manifest_sound_valid_lit`   RECORD AND SET LITERALS, `NoRecOps` REMOVED: the same for `FragL` = `FragE` + set literals + record
+                                 literals with distinct keys (dereferenced `{x: principal.a}.x.b`, as operands
+                                 `[principal.a, resource.b].contains(…)`, `x in [A::"a", r.owner]`, nested), with `==` /
+                                 `contains*` on records allowed.  `VRel` (Lemmas/ManifestFull.lean) extends `PCover` to
+                                 `WrappedAccessPaths::RecordLiteral / SetLiteral`, `SimL` / `eval_simL` (Lemmas/ManifestLit.lean)
+                                 extend `Sim` / `eval_sim`; `full_eq`: where the analysis requests the full type
+                                 (`full_type_required`) a covering sub-store holds THE WHOLE VALUE; `sim_typedL`
+                                 (Lemmas/ManifestLitValid.lean): C03 type soundness + `typeOf_cn` give the premises.
+                                 Hypotheses replacing `NoRecOps` and `CtxWF`: `SortedReq req`, `SortedStore es` (records are
+                                 key-sorted: Rust `BTreeMap`s; `Value.beq` on records is positional in the model);
+                                 `sortedStore_slice`: the slice is key-sorted (proved, Lemmas/ManifestSorted.lean);
+  * `ctxWF_not_from_conformance` `CtxWF` is NOT derivable from `ConformsRequest` (a context list binding a key twice conforms).
+
+What REMAINS: the "keeps more entities" half of `slice_monotone`; `typedAst` is a specification-level definition (Lemmas/ManifestValid.lean, written
 from typecheck.rs; the differential run takes the typed ASTs from Rust and does not diff `typedAst` against them).
 `FullStatement` (whose hypothesis `p.condition = te.erase` restricts it to typed ASTs without short-circuit transformation)
 is FALSE for the analysed code outside the stated exclusions' complement in two ways found by this check (see
